@@ -63,6 +63,11 @@ def cases(draw):
             state = draw(st.sampled_from(T_STATES[1:]))
             named = draw(st.booleans())        # named in description vs bound by update
         tasks.append({'pilot': bound, 'state': state, 'named': named})
+    for t in tasks:
+        # a task whose executable failed carries that error already while it is still on its way
+        # through output staging (not final yet)
+        if t['pilot'] is not None and t['state'] not in rps.FINAL and draw(st.integers(0, 3)) == 0:
+            t['prior_exc'] = True
     events = draw(st.lists(
         st.tuples(st.integers(0, n_p - 1),
                   st.sampled_from(['step', 'step', 'DONE', 'FAILED', 'CANCELED', 'remove']),
@@ -114,6 +119,10 @@ def run_case(case):
         if t['state'] == rps.FAILED:
             upd['exception'] = 'RuntimeError("own failure")'
             upd['exception_detail'] = 'failed on its own'
+        elif t.get('prior_exc') and t['state'] not in rps.FINAL:
+            upd['exception'] = 'RuntimeError("task failed")'
+            upd['exception_detail'] = 'exit code: 1'
+            res.label('nonfinal_task_with_recorded_error')
         if task.state != t['state']:
             tm._update_tasks([upd])
         if task.state != t['state']:
